@@ -78,3 +78,29 @@ def random_argument(rnd, kind='prop', depth=3, max_premises=2):
         leaf = closed
     mk = lambda: random_sentence(rnd, rnd.randint(1, depth), atoms, ops1, ops2, leaf)
     return Argument(mk(), [mk() for _ in range(rnd.randint(0, max_premises))])
+
+_roll = [10_000]
+def roll_cache():
+    """evict everything from the lexical item cache using public constructors only (the cache is a bounded FIFO, not an
+    interning table): afterwards every construction yields a new object.  No-op when the cache outlives 20000 constructions."""
+    from pytableaux.lang import Atomic, Constant
+    _roll[0] += 1
+    spec = (3, _roll[0])
+    probe = Constant(spec)               # the newest entry: once it is gone, so is everything older
+    for _ in range(20_000):
+        _roll[0] += 1
+        Atomic(_roll[0] % 5, _roll[0])
+        if Constant(spec) is not probe: return True
+    return False
+
+def distinct_equal(item):
+    "an object equal to the lexical item, rebuilt bottom-up after the cache rolled over: no part of it is shared with the original"
+    roll_cache()
+    return _rebuild(item)
+
+def _rebuild(item):
+    from pytableaux.lang import Operated, Quantified, Predicated, Predicate
+    if isinstance(item, Operated): return Operated(item.operator, tuple(_rebuild(x) for x in item.operands))
+    if isinstance(item, Quantified): return Quantified(item.quantifier, _rebuild(item.variable), _rebuild(item.sentence))
+    if isinstance(item, Predicated): return Predicated(item.predicate if item.predicate.is_system else _rebuild(item.predicate), tuple(_rebuild(x) for x in item.params))
+    return type(item)(item.spec)
